@@ -1,7 +1,9 @@
 """C19 - a log message reaches the handler exactly when category and thresholds say so.
 
-T1: sc_log / sc_logv / sc_set_log_defaults and the SC_GEN_LOG* macros are regenerated from /repo
-(tools/c2g/groups_C19.py) and the theorems of Props/Properties_C19.v are re-checked against them.
+T1: sc_log / sc_logv / sc_set_log_defaults and the SC_GEN_LOG* macros (group LogC19) and the package registry -
+sc_package_register / unregister / is_registered / set_verbosity, sc_finalize_noabort, sc_log_indent_*, the decisions
+of the built-in handler (group PkgC19) - are regenerated from /repo (tools/c2g/groups_C19.py) and the theorems of
+Props/Properties_C19.v are re-checked against them.
 Correspondence: the extracted state machine (generated decision functions inside) against the real
 library on the COMPLETE finite table of the property (exhaustive) plus seeded histories; the
 implementation side counts handler invocations with recording handlers installed through the public
@@ -172,6 +174,19 @@ def table_scenarios(full):
                         ops.append("I 1 0 -1"); reg = 1
                     ops += ["R 0 -1", "W %d 0" % reg, "W -1 70", "T 0 %d" % tprio, "W %d 140" % reg]
                     out.append(";".join(ops))
+    # the registry: holes below live packages (an id at or above the COUNT of packages stays registered), reuse of ids,
+    # growth 1 -> 3 -> 7 -> 15 slots (first and last slot of every generation, never registered slots inside the table,
+    # first id beyond it), finalize with holes and a new life afterwards
+    for dthr in (0, 4, 9):
+        for pthr in (-1, 1, 8):
+            out.append(";".join(["D 0 1 %d" % dthr, "R 2 %d" % pthr, "R 3 %d" % pthr, "R 4 %d" % pthr, "R 5 %d" % pthr, "U 1",
+                                 "W 3 0", "W 2 70", "W 1 140", "U 0", "W 3 210", "W 2 280", "Wv 3 350", "R 2 1", "W 0 420", "W 3 490",
+                                 "R 3 2", "W 1 560", "U 2", "U 3", "W 3 630", "W 1 700", "V 1 %d" % pthr, "W 1 770"]))
+            regs = ["R %d %d" % (2 + k % 4, (pthr if k % 2 else k % 10)) for k in range(9)]
+            out.append(";".join(["D 0 1 %d" % dthr] + regs + ["W %d %d" % (p, 70 * k) for k, p in enumerate((0, 1, 2, 3, 6, 7, 8, 9, 14, 15, 16))]
+                                + ["U 7", "U 3", "W 8 800", "W 7 870", "R 5 0", "W 3 940", "R 5 1", "W 7 1010", "Wv 8 1080"]))
+            out.append(";".join(["D 0 1 %d" % dthr, "I 1 2 %d" % pthr, "R 3 %d" % pthr, "R 4 0", "R 5 1", "U 2", "F", "W 0 0", "W 3 70", "L 1 2 5 140",
+                                 "R 2 %d" % pthr, "W 0 150", "W 1 220", "I 0 3 1", "W 1 290", "F", "F", "W 0 360"]))
     # the macros in front of sc_log / sc_logf
     for init in (None, 1):
         ops = ["D 0 1 0"]
@@ -310,7 +325,7 @@ def compare(ctx, label, scen, impl_lines, model_lines, rank, dbg, stats):
 
 def run(ctx):
     import genall
-    st = genall.run(["LogC19"])
+    st = genall.run(["LogC19", "PkgC19"])
     for g, s in st.items():
         ctx.log("c2g", g, s)
         if s.startswith("FAILED"):
@@ -457,7 +472,8 @@ def run(ctx):
                        "reused with every threshold; trace bound -1..10 x thresholds x handlers; SC_GEN_LOG/SC_GEN_LOGF/sc_logf for every "
                        "category x priority x id kind (registered, -1, beyond the table, negative, registered-then-unregistered); sc_logf/SC_GEN_LOGF "
                        "sweeps with ids that are not registered (unregistered again, never registered inside the table, beyond the table, empty table, "
-                       "negative) x default handler x init; plus seeded histories (register/unregister/set_verbosity/set_log_defaults/init/finalize/trace "
+                       "negative) x default handler x init; the registry: holes below live packages, reuse of ids, growth 1-3-7-15 slots, "
+                       "finalize with holes and a new life afterwards (thresholds 0/4/9 x -1/1/8); plus seeded histories (register/unregister/set_verbosity/set_log_defaults/init/finalize/trace "
                        "interleaved with sweeps); release and debug configuration.  evaluations = scenarios x build/rank; a scenario is "
                        "non-trivial if some handler was invoked; distinct = distinct (variant, rank, scenario)")
     ctx.notes["log_calls_evaluated"] = stats["calls"]
@@ -465,6 +481,10 @@ def run(ctx):
     ctx.notes["sc_logf_calls_evaluated"] = stats.get("logf_calls", 0)
     ctx.notes["sc_logf_calls_with_unregistered_id"] = stats.get("logf_unregistered", 0)
     ctx.notes["scenarios"] = dict(table=len(table), histories=len(hist), debug_subset=len(sub))
+    ctx.notes["registry_scenarios"] = ("27 enumerated scenarios (default threshold 0/4/9 x package threshold -1/1/8) x 3 shapes: holes below live packages "
+                                       "(ids at or above the count of packages, reuse of freed ids, set_verbosity after reuse), growth 1-3-7-15 slots with sweeps "
+                                       "of the first/last slot of each generation, never registered slots, the first id beyond the table, and finalize with "
+                                       "holes followed by a new life (register, sc_init, double finalize); every sweep is 70 sc_log / sc_logf calls")
     ctx.notes["oracle_mismatches"] = stats.get("oracle_mismatches", 0)
     ctx.notes["model_mismatches"] = stats.get("model_mismatches", 0)
     ctx.notes["input_distribution"] = ("table scenarios are enumerated, not sampled; histories: 5-40 operations, D 10%, R 18%, U 10%, V 14%, "
@@ -472,9 +492,11 @@ def run(ctx):
                                        "package ids of every call from {-1, registered, 0..11, 1000, negative}")
     for s in (table[1], table[len(table) // 2], hist[0]):
         ctx.sample({"scenario": s[:300]})
-    ctx.cov["trusted_base"] = ["tools/c2g translator with the event extension of tools/c2g/groups_C19.py and clang-14's JSON AST "
+    ctx.cov["trusted_base"] = ["tools/c2g translator with the event extensions EvT / RegT of tools/c2g/groups_C19.py (package pointers as slot indices, "
+                               "stores / realloc / free / registry calls as events, symbolic results of libc calls, fixed parameter lists) and clang-14's JSON AST "
                                "(mitigated by the exhaustive differential run of this check)",
-                               "hand-written model of the package table, sc_init and sc_finalize_noabort (C19/LogModel.v), tied by the same run",
+                               "the meaning given to the events of the generated registry functions by C19/PkgModel.v (apply_ev); the hand-written sc_init "
+                               "(C19/LogModel.v), tied by the same run; register / unregister / set_verbosity / is_registered / finalize are tied by T1 and by the run",
                                "glibc: stdout is an assignable FILE* and open_memstream (the harness observes the built-in handler through them)",
                                "OpenMPI's mpirun for the ranks 1..3 (only MPI_Comm_rank is used)"]
     ctx.assumptions += ["sc_package_id is -1 or a registered id whenever libsc logs on its own behalf (SC_LERRORF inside sc_package_is_registered)",
